@@ -34,10 +34,10 @@ def plan(tier, seed):
 
 def thresholds(tier):
   t = {"design_backend_pairs": 100, "texts_compared": 300, "module_tables_checked": 100, "standalone_bodies_compared": 200,
-       "parameterisations": 300, "hashed_module_names": 20, "full_names_checked": 150, "instance_statements_checked": 120, "multi_unit_texts_compared": 100, "duplicate_module_probes": 6, "retranslations_compared": 8, "duplicate_module_probe_controls_clean": 3, "reserved_word_probes": 1500, "reserved_word_probe_controls_translated": 100}
+       "parameterisations": 300, "hashed_module_names": 20, "full_names_checked": 150, "instance_statements_checked": 120, "multi_unit_texts_compared": 100, "duplicate_module_probes": 6, "retranslations_compared": 8, "struct_name_probes": 20, "struct_name_probe_controls_translated": 2, "duplicate_module_probe_controls_clean": 3, "reserved_word_probes": 1500, "reserved_word_probe_controls_translated": 100}
   if tier == "thorough":
     t = {k: v * 8 for k, v in t.items()}
-    t["multi_unit_texts_compared"] = 100; t["duplicate_module_probes"] = 6; t["retranslations_compared"] = 8; t["duplicate_module_probe_controls_clean"] = 3; t["reserved_word_probes"] = 1500; t["reserved_word_probe_controls_translated"] = 100       # same size in both tiers
+    t["multi_unit_texts_compared"] = 100; t["duplicate_module_probes"] = 6; t["retranslations_compared"] = 8; t["struct_name_probes"] = 20; t["struct_name_probe_controls_translated"] = 2; t["duplicate_module_probe_controls_clean"] = 3; t["reserved_word_probes"] = 1500; t["reserved_word_probe_controls_translated"] = 100       # same size in both tiers
   return t
 
 
@@ -618,6 +618,52 @@ def run_retranslate_probe(sh):
     G.unload(mod)
 
 
+def run_structname_probe(sh):
+  """bitstruct classes whose NAME is no identifier of the target language ( mk_bitstruct("Msg<8>", ...), "mem.Req", "Req-8", "8bit" ),
+  as the type of a port, nested inside another struct, and two names that look alike once the odd characters are gone: the text
+  has legal identifiers only, and two different struct types never share a typedef name"""
+  from pymtl3 import Component, InPort, OutPort, mk_bits, mk_bitstruct, update
+  from vlib import cosim
+  names = ["Msg<8>", "Msg(8)", "mem.Req", "Req-8", "8bit", "a b", "Plain"]
+  for be in ("sv", "ys"):
+    seen = {}
+    for i, nm in enumerate(names):
+      for nested in (False, True):
+        Inner = mk_bitstruct(nm, {"data": mk_bits(8), "tag": mk_bits(3 + i % 2)})
+        T = mk_bitstruct("Outer", {"h": Inner, "k": mk_bits(2)}) if nested else Inner
+        class SNTop(Component):
+          def construct(s):
+            s.i = InPort(T); s.o = OutPort(8)
+            if nested: s.o //= s.i.h.data
+            else: s.o //= s.i.data
+        top = SNTop(); top.elaborate()
+        sh.count("struct_name_probes")
+        try:
+          text, fn, topmod = cosim.translate(top, be)
+        except Exception as e:
+          sh.count("struct_name_probes_refused")
+          if nm == "Plain": sh.inconclusive("struct-name-probe-control-refused:" + type(e).__name__)
+          continue
+        try: os.remove(fn)
+        except OSError: pass
+        body = "\n".join(l.split("//")[0] for l in text.splitlines())
+        idents = set(re.findall(r"(?<![\w$'])([A-Za-z_\\][^\s;,\[\]\(\)\{\}:=+\-*/&|^~!<>?.#@'\"]*)", body))
+        tds = re.findall(r"\}\s*([^\s;]+)\s*;", body)
+        bad = [t for t in tds if not re.fullmatch(r"[A-Za-z_][A-Za-z0-9_$]*", t)]
+        # whatever stands where a type name stands has to be a legal identifier
+        decl = re.findall(r"^\s*(?:input|output)\s+(?!logic|wire|reg)(\S+)\s+\w+", body, re.M)
+        bad += [t for t in decl if not re.fullmatch(r"[A-Za-z_][A-Za-z0-9_$]*", t)]
+        if bad:
+          sh.violation("illegal-or-clashing-identifier-or-module-table-error", {"backend": be, "struct_class_name": nm, "nested": nested, "illegal_type_names": sorted(set(bad))[:4]},
+                       case=("structname", be, nm, nested)); continue
+        if not nested and be == "sv" and tds:
+          other = seen.get(tds[-1])
+          if other is not None and other != nm:
+            sh.violation("two-struct-types-share-one-typedef-name", {"backend": be, "names": [other, nm], "typedef": tds[-1]}, case=("structname-clash", be, nm))
+          seen[tds[-1]] = nm
+        if nm == "Plain": sh.count("struct_name_probe_controls_translated")
+
+
 def run_keyword_probe(sh):
   """identifiers are legal: a signal / block / loop variable named like a reserved word of IEEE 1800-2017 (list written down from
   Annex B in vlib/svkeywords.py, not taken from pymtl3's table) is either refused by the translator or renamed - it never reaches
@@ -668,6 +714,7 @@ def run_shard(sh):
   if sh.params["part"] == 1: run_multiunit_probe(sh)
   if sh.params["part"] == 2: run_dupmodule_probes(sh)
   if sh.params["part"] == 3: run_retranslate_probe(sh)
+  if sh.params["part"] == 4: run_structname_probe(sh)
   run_keyword_probe(sh)
   rng = sh.rng("c13")
   items = []
